@@ -8,7 +8,7 @@ ENGINES = [
  {"name":"codec","path":"harness/src/codec.rs","serves_properties":["C05","C06"],"kind_free_text":"bounded-exhaustive enumeration of a finite input alphabet against independent reference encoder/decoder"},
  {"name":"query","path":"harness/src/query.rs","serves_properties":["C09","C10"],"kind_free_text":"explicit-state BFS over event histories on the real FindNodeQuery / PredicateQuery / QueryPool with explicit time"},
  {"name":"filter","path":"harness/src/filter.rs","serves_properties":["C18"],"kind_free_text":"explicit-state BFS of the real Limiter against an exact token bucket; full path enumeration; history-replay BFS of the real packet Filter with the global permit/ban list"},
- {"name":"ssim","path":"harness/src/ssim.rs","serves_properties":["C14","C20"],"kind_free_text":"real Discv5/Service over a scripted handler (feature-gated early return in Handler::spawn); event histories enumerated exhaustively"},
+ {"name":"ssim","path":"harness/src/ssim.rs","serves_properties":["C11","C12","C14","C17","C20"],"kind_free_text":"real Discv5/Service over a scripted handler (feature-gated early return in Handler::spawn); event histories enumerated exhaustively"},
  {"name":"table","path":"harness/src/table.rs","serves_properties":["C07","C08","C16"],"kind_free_text":"explicit-state BFS over operation histories on the real KBucketsTable (history replay, canonical fingerprints)"},
 ]
 
@@ -46,6 +46,16 @@ CHECKS = {
    "All interleavings of three concurrently delivered TALK requests (two peers, one reused id), respond / drop / hold per request object and shutdown at any point, on the real Discv5: exactly one TALKRESP per request with the right id, address and payload while running; no panic and an error value after shutdown. The graph is finite and explored completely.",
    "The scripted handler drops its receiver when told to exit, as the real one does.","3/C20"),
 }
+
+ "C11": ("model_checking","exhaustive enumeration of request classes x answer shapes on real services (requester and responder both the real Service, relayed by the harness; scripted malicious responder), one world per process, against a reference NODES validator","ssim",
+   "World A: for every log2-distance class 0..256 between lookup target and responder (every request list the lookup code can produce) and three responder table contents, a real responder service answers a real requester service: never banned, all records reach the lookup. World B: every answer of up to 2 (thorough 3) packets over 11 packet contents x 8 claimed totals (+ inconsistent totals, failure after a partial answer), floods of 22 packets and packets after completion, against a reference (completion point, on-distance filter, ban iff an off-distance record was processed).",
+   "Real keys cannot be generated at low distances: for low request classes the only on-distance record is the responder's own. Process-global ban list: one world per execution, shards are processes.","3/C11"),
+ "C12": ("model_checking","explicit-state BFS over histories of scripted handler reports and user calls on the real Service; oracle over table_entries() after every step","ssim",
+   "All histories up to the stated depth, from the empty table and from a populated table with a lookup in flight, over Established (8 record shapes), UnverifiableEnr, NODES answers to lookup and ENR requests (8 shapes + the local record), PONG, RequestFailed, add_enr, remove_node, disconnect_node, find_node, for 3 IP modes x 3 table filters: every entry contactable, passes the filter, not local, admitted only via session or explicit add; NODES-learnt replacement only with strictly higher seq.",
+   "The single-stack address check of incoming sessions is decided by the handler (checked in the handler engine when built).","3/C12"),
+ "C17": ("model_checking","explicit-state BFS over histories of PONG votes, failures and time passing on the real Service with a scripted handler; reference vote ledger","ssim",
+   "All histories up to the stated depth over {PONG(voter, address) answering a real service ping, request failure, ping interval, vote expiry} for minimum 2 and 3, 4-5 voters of mixed connection direction, IPv4 and dual-stack: whenever the local record's UDP address changes, the new address has at least the minimum number of distinct unexpired voters (clear-majority margin in all-eligible worlds), seq increases, signature verifies, exactly one SocketUpdated event.",
+   "Which PONGs count as votes is implementation policy: the margin clause is checked in worlds where every voter is eligible; mixed worlds check the policy-independent minimum clause.","3/C17"),
 
 NA_REASON = "check not built yet (work in progress; see DESIGN.md for the planned engine)"
 
